@@ -127,7 +127,8 @@ def check(ctx):
     def with_fe(t):
         # phi(len(fixed_effect_cols) > 0 ? phi(True ? X : Y) : old)
         if t[0] == "phi" and "fixed_effect_cols" in ir.show(t[1]):
-            t = t[2]
+            # the branch with fixed effects: `len(cols) > 0` is written (len(cols) == 0) with the branches exchanged
+            t = t[3] if t[1][0] == "cmp" and t[1][1] == "==" and t[1][3] == ("const", 0) else t[2]
         if t[0] == "phi" and t[1] == ("const", True):
             t = t[2]
         return t
@@ -247,7 +248,7 @@ def check(ctx):
     for pc, name, t, n in es.assigns:
         if t[0] == "setitem" and t[3][0] == "call" and ir.show(t[3][1]).endswith("where") and len(t[3][2]) == 3:
             c, a, bb = t[3][2]
-            guard = [cc for cc, pol in pc if cc[0] == "cmp"]
+            guard = [(cc if pol else ("cmp", {"in": "not in", "not in": "in"}.get(cc[1], cc[1]), cc[2], cc[3])) for cc, pol in pc if cc[0] == "cmp"]
             fe_elem = t[2]
             ok6 = (a == ("const", "other") and bb == ("sub", t[1], fe_elem) and c[0] == "un" and c[1] == "~" and c[2][0] == "call" and c[2][1] == ("attr", ("sub", t[1], fe_elem), "isin")
                    and any(g[1] == "not in" and g[2] == ("const", "all") for g in guard))
